@@ -1,0 +1,162 @@
+//go:build verif
+
+package interp
+
+import (
+	"reflect"
+	"runtime"
+	"strings"
+)
+
+// This file is only compiled with the verif build tag and is used by the C19 (debugger) check only.
+// It changes nothing unless one of its functions is called:
+//   - VerifC19Dump: read-only dump of the control-flow graph of a compiled Program,
+//   - VerifC19Instrument: wraps the closure generators of a Program that is run WITHOUT a debugger so
+//     that every operation reports its node, call depth and frame (the independent oracle for the
+//     node sequence that the debugger's tracking re-derives from code addresses),
+//   - VerifC19SetLineBreakpoints: the real SetBreakpoints on a Debugger value that is not attached.
+
+// VerifC19Node is the debugger-relevant view of one CFG node.
+type VerifC19Node struct {
+	Index       int64   // node index
+	Kind        string  // node kind
+	Action      string  // node action
+	Line        int     // source line (0 if no position)
+	Col         int     // source column
+	HasPos      bool    // n.pos != token.NoPos
+	Tnext       int64   // index of tnext or -1
+	Fnext       int64   // index of fnext or -1
+	Start       int64   // index of start or -1
+	Anc         int64   // index of the AST parent or -1
+	Ident       string  // n.ident (function name on the name node of a funcDecl)
+	Children    []int64 // indices of the AST children, in order
+	ExecPC      uintptr // code address of n.exec (0 if nil): what isExecNode compares
+	BreakOnLine bool
+	BreakOnCall bool
+}
+
+// VerifC19Dump lists the nodes of prog in Walk (pre-) order. It does not generate closures:
+// ExecPC is 0 for a node whose exec has not been generated yet.
+func VerifC19Dump(prog *Program) []VerifC19Node {
+	idx := func(n *node) int64 {
+		if n == nil {
+			return -1
+		}
+		return n.index
+	}
+	var out []VerifC19Node
+	prog.root.Walk(func(n *node) bool {
+		r := VerifC19Node{Index: n.index, Kind: n.kind.String(), Action: n.action.String(), HasPos: n.pos.IsValid(),
+			Tnext: idx(n.tnext), Fnext: idx(n.fnext), Start: idx(n.start), Anc: idx(n.anc), Ident: n.ident}
+		if n.pos.IsValid() {
+			p := n.interp.fset.Position(n.pos)
+			r.Line, r.Col = p.Line, p.Column
+		}
+		for _, c := range n.child {
+			r.Children = append(r.Children, c.index)
+		}
+		if n.exec != nil {
+			r.ExecPC = reflect.ValueOf(n.exec).Pointer()
+		}
+		if n.debug != nil {
+			r.BreakOnLine, r.BreakOnCall = n.debug.breakOnLine, n.debug.breakOnCall
+		}
+		out = append(out, r)
+		return true
+	}, nil)
+	return out
+}
+
+// VerifC19Step is one operation executed by the plain loop, as recorded by VerifC19Instrument.
+type VerifC19Step struct {
+	Index int64 // index of the node whose closure ran
+	Depth int   // number of runCfg activations on the goroutine's stack whose loop is still running
+	Frame int   // sequence number of the frame the operation ran on (1 = first frame seen)
+	Via   int   // who invoked the closure: 0 = the loop of runCfg, 1 / 2 = the forwarding closure that setExec installs on a tnext / fnext back edge, 3 = anything else
+}
+
+// VerifC19Instrument wraps the generator of every node of prog so that the generated closure
+// reports (node, call depth, frame) to rec before it runs. It must be called after Compile and
+// before Execute, on an interpreter that is NOT being debugged: it is the independent oracle for
+// the node sequence that the debugger's tracking re-derives from code addresses.
+func VerifC19Instrument(prog *Program, rec func(VerifC19Step)) {
+	frames := map[*frame]int{}
+	prog.root.Walk(func(n *node) bool {
+		g := n.gen
+		if g == nil {
+			return true
+		}
+		n.gen = func(x *node) {
+			g(x)
+			e := x.exec
+			if e == nil {
+				return
+			}
+			x.exec = func(f *frame) bltn {
+				id, ok := frames[f]
+				if !ok {
+					id = len(frames) + 1
+					frames[f] = id
+				}
+				d, via := verifC19Depth()
+				rec(VerifC19Step{Index: x.index, Depth: d, Frame: id, Via: via})
+				return e(f)
+			}
+		}
+		// Function literals get their closures while the program is compiled (cfg.go, case funcLit):
+		// drop them so that they are generated again, through the wrapped generators.
+		n.exec = nil
+		return true
+	}, func(n *node) {
+		if n.kind == funcLit {
+			_ = genRun(n) // same order as at compile time (post-order over the literals)
+		}
+	})
+}
+
+// verifC19Depth counts the runCfg activations on the current stack minus those that are already
+// running their deferred epilogue (whose loop has ended): the value of debugRoutine.fDepth that a
+// debugged run of the same program has at this point.
+func verifC19Depth() (d, via int) {
+	var pcs [1024]uintptr
+	n := runtime.Callers(2, pcs[:])
+	fr := runtime.CallersFrames(pcs[:n])
+	for k := 0; ; k++ {
+		f, more := fr.Next()
+		if k == 1 { // the caller of the recording closure
+			switch {
+			case strings.HasSuffix(f.Function, "/interp.runCfg"):
+				via = 0
+			case strings.HasSuffix(f.Function, "/interp.setExec.func1.1"):
+				via = 1
+			case strings.HasSuffix(f.Function, "/interp.setExec.func1.2"):
+				via = 2
+			default:
+				via = 3
+			}
+		}
+		switch {
+		case strings.HasSuffix(f.Function, "/interp.runCfg"):
+			d++
+		case strings.HasSuffix(f.Function, "/interp.runCfg.func1"):
+			d--
+		}
+		if !more {
+			break
+		}
+	}
+	return d, via
+}
+
+// VerifC19SetLineBreakpoints runs the real SetBreakpoints on prog for the given lines through a
+// Debugger value that is not attached to the interpreter (no goroutine, interp.debugger stays nil),
+// so that an instrumented plain run sees exactly the closure generation that a debug session with
+// line requests causes before Execute.
+func VerifC19SetLineBreakpoints(i *Interpreter, prog *Program, lines []int) []Breakpoint {
+	dbg := &Debugger{interp: i}
+	rq := make([]BreakpointRequest, len(lines))
+	for k, l := range lines {
+		rq[k] = LineBreakpoint(l)
+	}
+	return dbg.SetBreakpoints(ProgramBreakpointTarget(prog), rq...)
+}
